@@ -49,6 +49,9 @@ Seating == /\ ops < MaxOps /\ ops' = ops + 1 /\ UNCHANGED <<nid, brought>>
                 \/ Do(TbReserve(tb, s)) /\ gone' = gone
                 \/ /\ (LeaveMidHand \/ ~InHand(tb, s)) /\ Do(TbLeave(tb, s)) /\ gone' = gone + tb.pl[s].bank
 Start == Do(TbStart(tb, O(Ones))) /\ UNCHANGED <<nid, ops, brought, gone>>
+\* the next blind level (once): the options change at once, the next hand is played with them
+Level == /\ ops < MaxOps /\ ops' = ops + 1 /\ tb.opt.bb = Blinds[4] /\ tb.running
+         /\ Do(TbSetBlinds(tb, tb.opt.dealerBlind, tb.opt.sb + 1, tb.opt.bb + 1)) /\ UNCHANGED <<nid, brought, gone>>
 \* in eliminate mode "leave" a busted player is removed by the table: his (zero) bankroll leaves with him
 Play == /\ UNCHANGED <<nid, ops, brought, gone>>
         /\ \E s \in DOMAIN tb.pl, f \in Strengths :
@@ -56,7 +59,7 @@ Play == /\ UNCHANGED <<nid, ops, brought, gone>>
              \/ Do(TbReady(tb, id, O(f)))
              \/ Do(TbPay(tb, id, O(f)))
              \/ \E a \in {"Fold", "Check", "Call", "Allin", "Pass"} : Do(TbAction(tb, id, a, 0, O(f)))
-Next == Join \/ Seating \/ Start \/ Play
+Next == Join \/ Seating \/ Start \/ Level \/ Play
 Spec == Init /\ [][Next]_vars
 
 (* ---- what holds at every rest point ---- *)
@@ -72,6 +75,8 @@ HandHasPositions ==
      /\ \E i \in Seats(tb.tg.g) : Has(tb.tg.g, i, "dealer")
      /\ \E i \in Seats(tb.tg.g) : Has(tb.tg.g, i, "bb")
      /\ tb.tg.g.n >= 2
+\* a hand keeps the blinds it was started with; a new level shows in the next hand at the latest
+BlindsOK == (tb.hasG /\ ~tb.tg.closed) => tb.tg.g.meta.bb \in {Blinds[4], tb.opt.bb}
 \* the table never asks the engine for a game the engine refuses (the Go loop would then retry without end)
 StartNeverRefused == ~refusedStart
 \* nobody is dealt in without chips, and only players the seat manager counts as able to play are dealt in
